@@ -32,8 +32,20 @@ type c17Res struct {
 	After   int            `json:"after"`
 	Growth  map[string]int `json:"growth"` // goroutines after-before grouped by function
 	Results []string       `json:"results,omitempty"`
+	Distinct []string      `json:"distinct,omitempty"` // distinct results over all calls (at most 6 kept)
 	HeapBefore uint64      `json:"heapbefore"`
 	HeapAfter  uint64      `json:"heapafter"`
+}
+
+func noteDistinct(res *c17Res, r string) {
+	for _, d := range res.Distinct {
+		if d == r {
+			return
+		}
+	}
+	if len(res.Distinct) < 6 {
+		res.Distinct = append(res.Distinct, r)
+	}
 }
 
 var fnRe = regexp.MustCompile(`(?m)^#\s+0x[0-9a-f]+\s+(\S+)\+0x`)
@@ -182,6 +194,7 @@ func init() {
 						for k := 0; k < per; k++ {
 							r := one()
 							mu.Lock()
+							noteDistinct(&res, r)
 							if len(res.Results) < 3 {
 								res.Results = append(res.Results, r)
 							}
@@ -193,6 +206,7 @@ func init() {
 			} else {
 				for k := 0; k < q.N; k++ {
 					r := one()
+					noteDistinct(&res, r)
 					if k < 3 {
 						res.Results = append(res.Results, r)
 					}
